@@ -246,6 +246,8 @@ class Repo(object):
             from . import canon
             trees = dict((n, m.tree) for n, m in self.modules.items())
             self.canon_hits = canon.canonicalise(trees, skip=('ptyprocess',))
+            from . import inline as _inline
+            self.opaque_helpers = set(getattr(_inline.inline_all, 'opaque', ()))
             for n, t in trees.items():
                 self.modules[n].tree = t
         for m in self.modules.values():
